@@ -3,7 +3,7 @@
 From Coq Require Import List NArith ZArith Lia Bool Arith.
 From Coq Require Import ZifyN ZifyNat ZifyBool.
 From Coq Require Import Init.Byte.
-From FFS Require Import Base.Res Base.Bytes EthTypes.Model.
+From FFS Require Import Base.Res Base.Bytes EthTypes.Model EthTypes.Spec.
 Import ListNotations.
 Local Open Scope N_scope.
 
@@ -37,4 +37,381 @@ Proof.
   rewrite IH. cbn [bind]. f_equal. f_equal.
   rewrite <- (n2b_b2n x) at 3. f_equal.
   rewrite N.mul_comm. symmetry. apply N.div_mod. lia.
+Qed.
+
+Lemma hex_val_unhex c : hex_val c = unhex_val (b2n c).
+Proof. reflexivity. Qed.
+
+(* hex.DecodeString succeeds exactly on the texts that spell a byte string, with exactly those bytes *)
+Lemma hex_decode_spells s : forall b, hex_spells s b -> hex_decode s = Ok b.
+Proof.
+  induction s as [s IH] using (well_founded_induction (Wf_nat.well_founded_ltof _ (@length byte))).
+  intros b Hs. destruct s as [|c1 [|c2 s']]; destruct b as [|x b']; cbn [hex_spells] in Hs; try contradiction; [reflexivity|].
+  destruct Hs as [(h & l & H1 & H2 & H3) Hs].
+  cbn [hex_decode]. rewrite <- !hex_val_unhex, H1, H2.
+  rewrite (IH s' ltac:(unfold ltof; cbn; lia) b' Hs). cbn [bind].
+  rewrite <- H3, n2b_b2n. reflexivity.
+Qed.
+
+Lemma hex_decode_ok_spells s : forall b, hex_decode s = Ok b -> hex_spells s b.
+Proof.
+  induction s as [s IH] using (well_founded_induction (Wf_nat.well_founded_ltof _ (@length byte))).
+  intros b Hd. destruct s as [|c1 [|c2 s']]; cbn [hex_decode] in Hd.
+  - injection Hd as <-. exact I.
+  - discriminate.
+  - rewrite <- !hex_val_unhex in Hd.
+    destruct (hex_val c1) as [h|] eqn:E1; [|discriminate].
+    destruct (hex_val c2) as [l|] eqn:E2; [|discriminate].
+    destruct (hex_decode s') as [r| |] eqn:E3; cbn [bind] in Hd; try discriminate.
+    injection Hd as <-. cbn [hex_spells]. split.
+    + exists h, l. repeat split; try assumption.
+      rewrite hex_val_unhex in E1, E2. apply unhex_val_lt in E1, E2. apply b2n_n2b. lia.
+    + apply IH; [unfold ltof; cbn; lia|exact E3].
+Qed.
+
+Lemma hex_decode_not_panic s : hex_decode s <> Panic.
+Proof.
+  induction s as [s IH] using (well_founded_induction (Wf_nat.well_founded_ltof _ (@length byte))).
+  destruct s as [|c1 [|c2 s']]; cbn [hex_decode]; try discriminate.
+  destruct (unhex_val (b2n c1)); [|discriminate]. destruct (unhex_val (b2n c2)); [|discriminate].
+  pose proof (IH s') as H. destruct (hex_decode s'); cbn [bind]; try discriminate.
+  apply H. unfold ltof; cbn; lia.
+Qed.
+
+Lemma hex_spells_length s : forall b, hex_spells s b -> length s = (2 * length b)%nat.
+Proof.
+  induction s as [s IH] using (well_founded_induction (Wf_nat.well_founded_ltof _ (@length byte))).
+  intros b Hs. destruct s as [|c1 [|c2 s']]; destruct b as [|x b']; cbn [hex_spells] in Hs; try contradiction; [reflexivity|].
+  destruct Hs as [_ Hs]. cbn [length]. rewrite (IH s' ltac:(unfold ltof; cbn; lia) b' Hs). lia.
+Qed.
+
+(* a spelled text does not start with "0x", so TrimPrefix leaves it alone *)
+Lemma trim0x_spelled s b : hex_spells s b -> trim0x s = s.
+Proof.
+  destruct s as [|c1 [|c2 s']]; try reflexivity. destruct b as [|x b']; cbn [hex_spells]; [contradiction|].
+  intros [(h & l & _ & H2 & _) _]. unfold trim0x.
+  destruct ((b2n c1 =? 48) && (b2n c2 =? 120)) eqn:E; [|reflexivity].
+  exfalso. unfold hex_val in H2. replace (b2n c2) with 120 in H2 by lia. cbn in H2. discriminate.
+Qed.
+
+Lemma trim0x_prefixed s : trim0x (t_0x ++ s) = s.
+Proof. reflexivity. Qed.
+
+Lemma trim0x_cases s : trim0x s = s \/ s = t_0x ++ trim0x s.
+Proof.
+  destruct s as [|c1 [|c2 s']]; try (left; reflexivity). unfold trim0x.
+  destruct ((b2n c1 =? 48) && (b2n c2 =? 120)) eqn:E; [right|left; reflexivity].
+  unfold t_0x, ch. cbn [app]. f_equal; [|f_equal].
+  - rewrite <- (n2b_b2n c1). f_equal. lia.
+  - rewrite <- (n2b_b2n c2). f_equal. lia.
+Qed.
+
+(* ---------- address.go: SetString ---------- *)
+Lemma Address_SetString_accepts s b :
+  hex_spells s b -> length b = 20%nat ->
+  Address_SetString s = Ok b /\ Address_SetString (t_0x ++ s) = Ok b.
+Proof.
+  intros Hs Hl. unfold Address_SetString. rewrite trim0x_prefixed, (trim0x_spelled s b Hs).
+  rewrite (hex_decode_spells s b Hs). cbn [bind]. rewrite Hl. split; reflexivity.
+Qed.
+
+Lemma Address_SetString_ok_inv s b :
+  Address_SetString s = Ok b ->
+  length b = 20%nat /\ (hex_spells s b \/ exists s', s = t_0x ++ s' /\ hex_spells s' b).
+Proof.
+  unfold Address_SetString. intros H.
+  destruct (hex_decode (trim0x s)) as [r| |] eqn:E; cbn [bind] in H; try discriminate.
+  destruct (length r =? 20)%nat eqn:El; [|discriminate]. injection H as <-.
+  split; [apply Nat.eqb_eq; exact El|].
+  apply hex_decode_ok_spells in E. destruct (trim0x_cases s) as [T|T].
+  - left. rewrite T in E. exact E.
+  - right. exists (trim0x s). split; assumption.
+Qed.
+
+Lemma Address_SetString_not_panic s : Address_SetString s <> Panic.
+Proof.
+  unfold Address_SetString. pose proof (hex_decode_not_panic (trim0x s)).
+  destruct (hex_decode (trim0x s)); cbn [bind]; try congruence.
+  destruct (length a =? 20)%nat; discriminate.
+Qed.
+
+(* wrong length (any number of bytes other than 20) and non-hex text are errors *)
+Lemma Address_SetString_rejects s :
+  (forall b, length b = 20%nat -> ~ hex_spells s b /\ (forall s', s = t_0x ++ s' -> ~ hex_spells s' b)) ->
+  exists e, Address_SetString s = Err e.
+Proof.
+  intros H. destruct (Address_SetString s) as [b|e|] eqn:E.
+  - exfalso. apply Address_SetString_ok_inv in E. destruct E as [Hl [Hs|(s' & -> & Hs)]].
+    + apply (proj1 (H b Hl)); exact Hs.
+    + apply (proj2 (H b Hl) s' eq_refl); exact Hs.
+  - eauto.
+  - exfalso. apply (Address_SetString_not_panic s E).
+Qed.
+
+(* ---------- hexbytes.go ---------- *)
+Lemma HexBytes_parse_accepts s b :
+  hex_spells s b -> hex_decode (trim0x s) = Ok b /\ hex_decode (trim0x (t_0x ++ s)) = Ok b.
+Proof.
+  intros Hs. rewrite trim0x_prefixed, (trim0x_spelled s b Hs). split; apply hex_decode_spells; exact Hs.
+Qed.
+
+Lemma HexBytes_parse_ok_inv s b :
+  hex_decode (trim0x s) = Ok b -> hex_spells s b \/ exists s', s = t_0x ++ s' /\ hex_spells s' b.
+Proof.
+  intros E. apply hex_decode_ok_spells in E. destruct (trim0x_cases s) as [T|T].
+  - left. rewrite T in E. exact E.
+  - right. exists (trim0x s). split; assumption.
+Qed.
+
+(* ---------- the json layer for strings: a quoted run of plain characters ---------- *)
+Lemma split_last_app (t : bytes) (z : byte) : split_last (t ++ [z]) = Some (t, z).
+Proof.
+  induction t as [|c t IH]; [reflexivity|]. cbn [app split_last]. rewrite IH.
+  destruct (t ++ [z]) eqn:E; [destruct t; discriminate|reflexivity].
+Qed.
+
+Lemma plain_string_quote (t : bytes) : forallb plain_char t = true -> plain_string (dquote :: t ++ [dquote]) = Some t.
+Proof.
+  intros H. unfold plain_string. change (b2n dquote =? 34) with true. cbv iota.
+  rewrite split_last_app. change (b2n dquote =? 34) with true. rewrite H. reflexivity.
+Qed.
+
+Lemma quote_eq t : quote t = dquote :: t ++ [dquote].
+Proof. reflexivity. Qed.
+
+(* every character of a spelled text, and of "0x", is plain *)
+Lemma hex_val_plain c d : hex_val c = Some d -> plain_char c = true.
+Proof.
+  unfold hex_val, plain_char.
+  destruct ((48 <=? b2n c) && (b2n c <=? 57)) eqn:E1; [intros _; lia|].
+  destruct ((97 <=? b2n c) && (b2n c <=? 102)) eqn:E2; [intros _; lia|].
+  destruct ((65 <=? b2n c) && (b2n c <=? 70)) eqn:E3; [intros _; lia|]. discriminate.
+Qed.
+
+Lemma hex_spells_plain s : forall b, hex_spells s b -> forallb plain_char s = true.
+Proof.
+  induction s as [s IH] using (well_founded_induction (Wf_nat.well_founded_ltof _ (@length byte))).
+  intros b Hs. destruct s as [|c1 [|c2 s']]; destruct b as [|x b']; cbn [hex_spells] in Hs; try contradiction; [reflexivity|].
+  destruct Hs as [(h & l & H1 & H2 & _) Hs]. cbn [forallb].
+  rewrite (hex_val_plain _ _ H1), (hex_val_plain _ _ H2), (IH s' ltac:(unfold ltof; cbn; lia) b' Hs). reflexivity.
+Qed.
+
+(* ---------- print forms ---------- *)
+Lemma forall_lt16 (P : N -> bool) :
+  forallb P (map N.of_nat (seq 0 16)) = true -> forall d, d < 16 -> P d = true.
+Proof.
+  intros H d Hd. rewrite forallb_forall in H. apply H.
+  apply in_map_iff. exists (N.to_nat d). split; [lia|]. apply in_seq. lia.
+Qed.
+
+Lemma lower_digit_hexchar d : d < 16 -> lower_digit d = hexchar d.
+Proof.
+  intros Hd. apply (reflect_iff _ _ (byte_eqb_spec _ _)).
+  revert d Hd. apply forall_lt16. vm_compute. reflexivity.
+Qed.
+
+Lemma nibble_lt a i : nibble a i < 16.
+Proof.
+  unfold nibble. pose proof (b2n_lt (nth (Nat.div2 i) a x00)).
+  destruct (Nat.even i); [apply N.div_lt_upper_bound; lia|apply N.mod_lt; lia].
+Qed.
+
+Lemma nibble_SS x a i : nibble (x :: a) (S (S i)) = nibble a i.
+Proof. reflexivity. Qed.
+
+Lemma hex_encode_lower_hex a : hex_encode a = lower_hex a.
+Proof.
+  unfold lower_hex. induction a as [|x a IH]; [reflexivity|].
+  replace (2 * length (x :: a))%nat with (S (S (2 * length a))) by (cbn [length]; lia).
+  cbn [seq map]. rewrite <- seq_shift, map_map, <- seq_shift, map_map.
+  unfold hex_encode in *. cbn [flat_map app]. rewrite IH.
+  f_equal; [|f_equal].
+  - symmetry. apply lower_digit_hexchar. apply (nibble_lt (x :: a) 0).
+  - symmetry. apply lower_digit_hexchar. apply (nibble_lt (x :: a) 1).
+Qed.
+
+Lemma hex_encode_length a : length (hex_encode a) = (2 * length a)%nat.
+Proof. rewrite hex_encode_lower_hex. unfold lower_hex. rewrite map_length, seq_length. reflexivity. Qed.
+
+Lemma Address0xHex_String_form a : Address0xHex_String a = t_0x ++ lower_hex a.
+Proof. unfold Address0xHex_String. rewrite hex_encode_lower_hex. reflexivity. Qed.
+Lemma AddressPlainHex_String_form a : AddressPlainHex_String a = lower_hex a.
+Proof. apply hex_encode_lower_hex. Qed.
+Lemma HexBytes0xPrefix_String_form a : HexBytes0xPrefix_String a = t_0x ++ lower_hex a.
+Proof. unfold HexBytes0xPrefix_String. rewrite hex_encode_lower_hex. reflexivity. Qed.
+Lemma HexBytesPlain_String_form a : HexBytesPlain_String a = lower_hex a.
+Proof. apply hex_encode_lower_hex. Qed.
+
+(* the printed form spells the bytes (so it parses back, by the lemmas above) *)
+Lemma hex_encode_spells a : hex_spells (hex_encode a) a.
+Proof. apply hex_decode_ok_spells. apply hex_decode_encode. Qed.
+
+(* ---------- EIP-55 ---------- *)
+Lemma nth_lower_hex a k : (k < 2 * length a)%nat -> nth k (lower_hex a) x00 = lower_digit (nibble a k).
+Proof.
+  intros Hk. unfold lower_hex.
+  rewrite (nth_indep _ x00 (lower_digit (nibble a 0))) by (rewrite map_length, seq_length; exact Hk).
+  rewrite (map_nth (fun i => lower_digit (nibble a i)) (seq 0 (2 * length a)) 0%nat k).
+  rewrite seq_nth by exact Hk. reflexivity.
+Qed.
+
+Lemma index_nth (l : bytes) i : (i < length l)%nat -> index l i = Ok (nth i l x00).
+Proof.
+  intros H. unfold index. destruct (nth_error l i) eqn:E.
+  - rewrite (nth_error_nth _ _ _ E). reflexivity.
+  - apply nth_error_None in E. lia.
+Qed.
+
+Definition checksum_char (hexAddr hexHash : bytes) (k : nat) : byte :=
+  let hd := match unhex_val (b2n (nth k hexHash x00)) with Some v => v | None => 0 end in
+  n2b (if 8 <=? hd then to_upper (b2n (nth k hexAddr x00)) else to_lower (b2n (nth k hexAddr x00))).
+
+Lemma checksum_loop_ok hexAddr hexHash n : forall i,
+  (i + n <= length hexAddr)%nat -> (i + n <= length hexHash)%nat ->
+  checksum_loop hexAddr hexHash i n = Ok (map (checksum_char hexAddr hexHash) (seq i n)).
+Proof.
+  induction n as [|n IH]; intros i H1 H2; [reflexivity|].
+  cbn [checksum_loop seq map]. rewrite !index_nth by lia. cbn [bind].
+  rewrite IH by lia. reflexivity.
+Qed.
+
+(* bits of a big-endian value *)
+Lemma be_value_snoc l x : be_value (l ++ [x]) = be_value l * 256 + b2n x.
+Proof. unfold be_value. rewrite fold_left_app. reflexivity. Qed.
+
+Lemma testbit_hi v x m : x < 256 -> N.testbit (v * 256 + x) (8 + m) = N.testbit v m.
+Proof.
+  intros Hx. rewrite !N.testbit_eqb. rewrite N.pow_add_r. change (2 ^ 8) with 256.
+  rewrite <- N.div_div by (try apply N.pow_nonzero; lia).
+  replace ((v * 256 + x) / 256) with v; [reflexivity|].
+  rewrite N.div_add_l by lia. rewrite N.div_small by lia. lia.
+Qed.
+
+Lemma nibble_app_l l x k : (k < 2 * length l)%nat -> nibble (l ++ [x]) k = nibble l k.
+Proof.
+  intros Hk. unfold nibble. rewrite app_nth1; [reflexivity|].
+  pose proof (Nat.div2_decr k (2 * length l - 1)). 
+  assert (Nat.div2 k < length l)%nat; [|assumption].
+  rewrite Nat.div2_div. apply Nat.div_lt_upper_bound; lia.
+Qed.
+
+Lemma nibble_high_bit l : forall k, (k < 2 * length l)%nat ->
+  N.testbit (be_value l) (4 * N.of_nat (2 * length l - 1 - k) + 3) = (8 <=? nibble l k).
+Proof.
+  induction l as [|x l IH] using rev_ind; intros k Hk; [cbn in Hk; lia|].
+  rewrite app_length in Hk |- *. cbn [length] in Hk |- *.
+  rewrite be_value_snoc. pose proof (b2n_lt x) as Hx.
+  destruct (Nat.lt_ge_cases k (2 * length l)) as [Hlt|Hge].
+  - rewrite nibble_app_l by exact Hlt.
+    replace (4 * N.of_nat (2 * (length l + 1) - 1 - k) + 3) with (8 + (4 * N.of_nat (2 * length l - 1 - k) + 3)) by lia.
+    rewrite testbit_hi by exact Hx. apply IH. exact Hlt.
+  - assert (Hd : Nat.div2 k = length l).
+    { rewrite Nat.div2_div. symmetry. apply Nat.div_unique with (r := (k - 2 * length l)%nat); lia. }
+    unfold nibble. rewrite Hd, app_nth2, Nat.sub_diag by lia. cbn [nth].
+    assert (k = (2 * length l)%nat \/ k = S (2 * length l)) as [->| ->] by lia.
+    + replace (Nat.even (2 * length l)) with true by (symmetry; apply Nat.even_spec; exists (length l); lia).
+      replace (4 * N.of_nat (2 * (length l + 1) - 1 - 2 * length l) + 3) with 7 by lia.
+      rewrite N.testbit_eqb. change (2 ^ 7) with 128. lia.
+    + replace (Nat.even (S (2 * length l))) with false.
+      2:{ symmetry. rewrite Nat.even_succ. apply Bool.not_true_iff_false. intros E. apply Nat.odd_spec in E. destruct E as [m E]. lia. }
+      replace (4 * N.of_nat (2 * (length l + 1) - 1 - S (2 * length l)) + 3) with 3 by lia.
+      rewrite N.testbit_eqb. change (2 ^ 3) with 8. lia.
+Qed.
+
+Lemma upper_lower_digit d : d < 16 ->
+  n2b (to_upper (b2n (lower_digit d))) = (if 10 <=? d then upper_digit d else lower_digit d) /\
+  n2b (to_lower (b2n (lower_digit d))) = lower_digit d.
+Proof.
+  intros Hd.
+  assert (H : (byte_eqb (n2b (to_upper (b2n (lower_digit d)))) (if 10 <=? d then upper_digit d else lower_digit d)
+               && byte_eqb (n2b (to_lower (b2n (lower_digit d)))) (lower_digit d)) = true).
+  { revert d Hd. apply forall_lt16. vm_compute. reflexivity. }
+  apply andb_true_iff in H. destruct H as [H1 H2].
+  split; apply (reflect_iff _ _ (byte_eqb_spec _ _)); assumption.
+Qed.
+
+Lemma unhex_lower_digit d : d < 16 -> unhex_val (b2n (lower_digit d)) = Some d.
+Proof. intros Hd. rewrite lower_digit_hexchar by exact Hd. apply unhex_hexchar. exact Hd. Qed.
+
+(* AddressWithChecksum.String() is EIP-55, for every 20-byte address and every 32-byte hash function *)
+Theorem checksum_is_eip55 (H : bytes -> bytes) :
+  (forall x, length (H x) = 32%nat) ->
+  forall a, length a = 20%nat -> AddressWithChecksum_String H a = Ok (eip55 H a).
+Proof.
+  intros HH a Ha. unfold AddressWithChecksum_String.
+  rewrite checksum_loop_ok by (rewrite hex_encode_length; try rewrite HH; lia).
+  cbn [bind]. unfold eip55. f_equal. change prefix0x with t_0x. f_equal.
+  apply map_ext_in. intros k Hk. apply in_seq in Hk.
+  unfold checksum_char. rewrite !hex_encode_lower_hex.
+  rewrite !nth_lower_hex by (try rewrite HH; lia).
+  rewrite unhex_lower_digit by apply nibble_lt.
+  pose proof (nibble_high_bit (H (lower_hex a)) k ltac:(rewrite HH; lia)) as Hb.
+  rewrite HH in Hb. replace (4 * N.of_nat (2 * 32 - 1 - k) + 3) with (255 - 4 * N.of_nat k) in Hb by lia.
+  rewrite Hb. destruct (upper_lower_digit (nibble a k) (nibble_lt a k)) as [U L].
+  destruct (8 <=? nibble (H (lower_hex a)) k).
+  - rewrite U, andb_true_r. reflexivity.
+  - rewrite L, andb_false_r. reflexivity.
+Qed.
+
+Lemma checksum_not_panic (H : bytes -> bytes) :
+  (forall x, length (H x) = 32%nat) -> forall a, length a = 20%nat -> AddressWithChecksum_String H a <> Panic.
+Proof. intros HH a Ha. rewrite (checksum_is_eip55 H HH a Ha). discriminate. Qed.
+
+(* the checksum form parses back to the address (EIP-55 only changes letter case) *)
+Lemma upper_digit_hex_val d : d < 16 -> hex_val (upper_digit d) = Some d /\ hex_val (lower_digit d) = Some d.
+Proof.
+  intros Hd.
+  assert (H : (match hex_val (upper_digit d) with Some v => v =? d | None => false end
+               && match hex_val (lower_digit d) with Some v => v =? d | None => false end) = true).
+  { revert d Hd. apply forall_lt16. vm_compute. reflexivity. }
+  apply andb_true_iff in H. destruct H as [H1 H2].
+  destruct (hex_val (upper_digit d)); [|discriminate]. destruct (hex_val (lower_digit d)); [|discriminate].
+  split; f_equal; lia.
+Qed.
+
+Lemma spells_of_nibbles a : forall (f : nat -> byte),
+  (forall k, (k < 2 * length a)%nat -> hex_val (f k) = Some (nibble a k)) ->
+  hex_spells (map f (seq 0 (2 * length a))) a.
+Proof.
+  induction a as [|x a IH]; intros f Hf; [exact I|].
+  replace (2 * length (x :: a))%nat with (S (S (2 * length a))) by (cbn [length]; lia).
+  cbn [seq map]. rewrite <- seq_shift, map_map, <- seq_shift, map_map. cbn [hex_spells]. split.
+  - exists (nibble (x :: a) 0), (nibble (x :: a) 1). repeat split; try (apply Hf; cbn [length]; lia).
+    unfold nibble. cbn. pose proof (N.div_mod (b2n x) 16). lia.
+  - apply (IH (fun k => f (S (S k)))). intros k Hk. rewrite Hf by (cbn [length]; lia). rewrite nibble_SS. reflexivity.
+Qed.
+
+Theorem eip55_parses_back (H : bytes -> bytes) a :
+  length a = 20%nat -> Address_SetString (eip55 H a) = Ok a.
+Proof.
+  intros Ha. unfold eip55.
+  replace 40%nat with (2 * length a)%nat by lia.
+  refine (proj2 (Address_SetString_accepts _ a _ Ha)).
+  apply spells_of_nibbles. intros k Hk. cbv zeta.
+  destruct (upper_digit_hex_val (nibble a k) (nibble_lt a k)) as [U L].
+  destruct ((10 <=? nibble a k) && N.testbit (be_value (H (lower_hex a))) (255 - 4 * N.of_nat k)); assumption.
+Qed.
+
+(* the lower-case forms spell the bytes, so they parse back too *)
+Lemma lower_hex_spells a : hex_spells (lower_hex a) a.
+Proof. rewrite <- hex_encode_lower_hex. apply hex_encode_spells. Qed.
+
+(* ---------- through the JSON layer ---------- *)
+Definition lexs_law_local (lexs : bytes -> option bytes) : Prop := forall b t, plain_string b = Some t -> lexs b = Some t.
+
+Lemma t_0x_plain : forallb plain_char t_0x = true.
+Proof. vm_compute. reflexivity. Qed.
+
+Lemma json_string_layer_local lexs (s b : bytes) :
+  lexs_law_local lexs -> hex_spells s b ->
+  HexBytes_UnmarshalJSON lexs (quote s) = Ok b /\ HexBytes_UnmarshalJSON lexs (quote (t_0x ++ s)) = Ok b /\
+  (length b = 20%nat -> Address_UnmarshalJSON lexs (quote s) = Ok b /\ Address_UnmarshalJSON lexs (quote (t_0x ++ s)) = Ok b).
+Proof.
+  intros L Hs. pose proof (hex_spells_plain s b Hs) as Hp.
+  assert (Hp2 : forallb plain_char (t_0x ++ s) = true) by (rewrite forallb_app, t_0x_plain, Hp; reflexivity).
+  unfold HexBytes_UnmarshalJSON, Address_UnmarshalJSON.
+  rewrite (L (quote s) s) by (rewrite quote_eq; apply plain_string_quote; exact Hp).
+  rewrite (L (quote (t_0x ++ s)) (t_0x ++ s)) by (rewrite quote_eq; apply plain_string_quote; exact Hp2).
+  destruct (HexBytes_parse_accepts s b Hs) as [A B]. split; [exact A|]. split; [exact B|].
+  intros Hl. apply Address_SetString_accepts; assumption.
 Qed.
